@@ -35,6 +35,15 @@ NOTE = {
  "C11": "Release of RefCell guards BY UNWINDING is std's guarantee (Kani cannot unwind) — trusted.",
 }
 
+TECH_EXTRA = {
+ "C04": " (here: only the auxiliary MIR unwind-edge fact on Storage::clone, no SMT query, confirmed by a native run with a really panicking Clone; the deciding method for C04 is Kani/CBMC)",
+ "C10": "; auxiliary: MIR unwind-edge fact on Storage::clone and native catch_unwind oracles for behaviour AFTER unwinding (Kani cannot unwind)",
+ "C05": "; auxiliary real-program corpora through the real macros (E1 corpus under Kani, negative corpus of programs that must not compile)",
+ "C16": "; auxiliary twin programs (decorated vs erased) through the real cfg macro chain",
+ "C12": "; admission-kernel counterexamples and boundary witnesses replayed natively through the public API",
+}
+
+
 def main():
     props = [json.loads(l) for l in open('/verif/properties.jsonl')]
     claimed = sorted(registry.PROPERTIES)
@@ -80,7 +89,7 @@ def main():
          "engine": "+".join(engines),
          "level_claimed": {"category": "model_checking", "text": text, "design_ref": "DESIGN.md " + ref},
          "level_note": "Bounded: nothing is claimed outside the bounds listed in the evidence file. Trusted: rustc, Kani/CBMC/cadical, z3/cvc5, the MIR printer, the cfg(gecs_verif) hooks, the ghost Model/Inv. " + NOTE.get(pid, ""),
-         "technique": "; ".join(tech[e] for e in engines),
+         "technique": "; ".join(tech[e] for e in engines) + TECH_EXTRA.get(pid, ""),
         })
     for p in props:
         if p["id"] not in claimed:
